@@ -12,7 +12,7 @@ CLAIMED = {
               "not below the archive's' (all loaders, all protocols), refutation for registries with a gap, never-changed kinds load identically, "
               "unregistered kinds have no loader, every emitted __loader__ is registered; the registry-dependent ones are re-proved by coqc "
               "against Snapshot.v regenerated from /repo on every run. get_tree's class selection is compared with the model on the exhaustive "
-              "(loader x protocol-value) product."),
+              "(loader x protocol-value) product. The dispatch table is also recomputed with skops imported from a byte-compiled tree without sources and from a zip bundle on sys.path (must equal the source tree's: registration must not depend on the deployment form)."),
         note=("Trusted: Coq kernel/vm_compute; snapshot translator (NODE_TYPE_MAPPING read-out, AST scan for emitted loader names); "
               "impl runner. Old-layout value fidelity is exercised under C05, not here."),
         ref="DESIGN.md section 4 C08"),
@@ -68,17 +68,17 @@ CLAIMED = {
         ref='DESIGN.md section 4 C14'),
     "C16": dict(
         technique='Coq proof over an fs-operation model + audit-hook correspondence + crash injection',
-        text="coq/props/C16.v (13 theorems) about update_ops, the model of skops/cli/_update.py after repairing D22/D23: the write decision, inertness of every non-writing case, input untouched and destination in {old content, complete new content} at EVERY crash prefix of the operation list (any Append cut short; both filesystem placements), no residue on completion; refuted witnesses for the pre-fix code. That update_ops is the code is correspondence: the real file-operation sequence of main_cli observed by sys.addaudithook over protocol x output x inplace x TMPDIR placement, final directory state compared; crash injection (os._exit at every event boundary) is the search oracle. 'The written archive loads to an equal object' is a theorem on the C05 fragment (C16_result_loads_equal_partial: the file operations composed with the dump model, the zip container as read-back oracle and the codec round trip) and a harness check on every generated value.",
+        text="coq/props/C16.v (13 theorems) about update_ops, the model of skops/cli/_update.py after repairing D22/D23: the write decision, inertness of every non-writing case, input untouched and destination in {old content, complete new content} at EVERY crash prefix of the operation list (any Append cut short; both filesystem placements), no residue on completion; refuted witnesses for the pre-fix code. That update_ops is the code is correspondence: the real file-operation sequence of main_cli observed by sys.addaudithook over protocol x output x inplace x TMPDIR placement, final directory state compared; crash injection (os._exit at every event boundary) is the search oracle. 'The written archive loads to an equal object' is a theorem on the C05 fragment (C16_result_loads_equal_partial: the file operations composed with the dump model, the zip container as read-back oracle and the codec round trip) and a harness check on every generated value. Faults the file-system model does not express are probed on the implementation and judged against the property directly (harness/impl_faults.py): destination is an existing directory; the final move refused (EACCES injected at os.replace / rename / link / copyfile) for a new, an existing and the in-place destination -- an error, every file as before, no residue.",
         note='Trusted: Fs.v semantics (POSIX rename atomicity), mkdtemp freshness, the audit-hook abstraction, zip digest modulo ids. Power loss / fsync ordering not modelled (process death only).',
         ref='DESIGN.md section 4 C16'),
     "C17": dict(
         technique='Coq proof over an event model (log + fs ops) + audit-hook/stderr correspondence',
-        text='coq/props/C17.v (15 theorems): default output path and PurePath.stem model, operation order (read pickle fully, dumps, only then open/write), failure inertness, warning emitted iff untrusted names exist with exactly those names; the input is never altered at any crash point whatever the output option (C17_input_untouched, unconditional since D29 was repaired in /repo: convert refuses when the output is the input itself, C17_same_file_refused); equivalence of the loaded object is a theorem on the C05 fragment (C17_result_loads_equal_partial: composition with the dump model, the zip read-back oracle and the codec round trip), an oracle premise (C17_equiv) plus a structural-fingerprint check beyond it.',
+        text='coq/props/C17.v (15 theorems): default output path and PurePath.stem model, operation order (read pickle fully, dumps, only then open/write), failure inertness, warning emitted iff untrusted names exist with exactly those names; the input is never altered at any crash point whatever the output option (C17_input_untouched, unconditional since D29 was repaired in /repo: convert refuses when the output is the input itself, C17_same_file_refused); equivalence of the loaded object is a theorem on the C05 fragment (C17_result_loads_equal_partial: composition with the dump model, the zip read-back oracle and the codec round trip), an oracle premise (C17_equiv) plus a structural-fingerprint check beyond it. Aliases the file-system model does not express are probed on the implementation (harness/impl_faults.py): output given as a hard link or a symlink of the input (same and other directory) must be refused with all files intact; an output path going through a symlinked directory and \'..\' must receive the archive where the OS resolves it.',
         note='Trusted: pickle; audit-hook abstraction; logging capture; zipfile as read-back oracle. D29 repaired in /repo.',
         ref='DESIGN.md section 4 C17'),
     "C18": dict(
         technique='Coq proof over the call graph translated from the source (serialise-before-touching) + Coq proof of sequencing + induction over one-hole contexts and over the real dump model + exhaustive-position correspondence',
-        text='coq/props/C18.v (16 theorems): TRANSLATED SOURCE (harness/callgraph.py, re-run every run, fail-closed): dump() is split at its call of _save; everything reachable from the part up to and including the serialisation uses no file-system primitive, only writers that stay in memory (np.save / save_npz into a local io.BytesIO(), writestr into the zip _save builds over a local io.BytesIO() -- argument shapes checked by the translator) and reflection (C18_static_serialise_before_touching; not blind: the part after it opens and writes the destination). MODEL: a failing serialisation means the sink sees no operation at all (existing path, new path, open file object), dumps never returns a prefix, and failure is independent of the position/depth of the unsupported element (induction over one-hole contexts with the leaf serialisers as oracle); and over the REAL dump model (CodecDump.get_state, all value kinds): a value that can never be serialised (unsupported type, raising __getstate__/__reduce__, property) sitting at ANY serialised position at any depth (list/tuple/set items, dict and defaultdict values, default factories, masked data/mask, RNG states, partial slots, operator attrs, bound-method owners, object state / reduce arguments) makes dumps_model raise, and then no target receives anything under any compression (C18_codec_inside_raises, C18_codec_unpersistable_touches_nothing). That the real get_state has that strict shape is correspondence: every node position of generated structures x rotating bad-element kinds x 4 sinks under the audit hook.',
+        text='coq/props/C18.v (16 theorems): TRANSLATED SOURCE (harness/callgraph.py, re-run every run, fail-closed): dump() is split at its call of _save; everything reachable from the part up to and including the serialisation uses no file-system primitive, only writers that stay in memory (np.save / save_npz into a local io.BytesIO(), writestr into the zip _save builds over a local io.BytesIO() -- argument shapes checked by the translator) and reflection (C18_static_serialise_before_touching; not blind: the part after it opens and writes the destination). MODEL: a failing serialisation means the sink sees no operation at all (existing path, new path, open file object), dumps never returns a prefix, and failure is independent of the position/depth of the unsupported element (induction over one-hole contexts with the leaf serialisers as oracle); and over the REAL dump model (CodecDump.get_state, all value kinds): a value that can never be serialised (unsupported type, raising __getstate__/__reduce__, property) sitting at ANY serialised position at any depth (list/tuple/set items, dict and defaultdict values, default factories, masked data/mask, RNG states, partial slots, operator attrs, bound-method owners, object state / reduce arguments) makes dumps_model raise, and then no target receives anything under any compression (C18_codec_inside_raises, C18_codec_unpersistable_touches_nothing). That the real get_state has that strict shape is correspondence: every node position of generated structures x rotating bad-element kinds x 4 sinks under the audit hook. Bad-element kinds include objects whose __getstate__ raises StopIteration / KeyError / AttributeError / TypeError (exceptions that control flow elsewhere may swallow); the fixed structure sees every kind at every position in both tiers.',
         note='Trusted: audit-hook observation of the destination; the serializer itself is an oracle here (modelled under C04/C05).',
         ref='DESIGN.md section 4 C18'),
     "C13": dict(
@@ -123,7 +123,7 @@ CLAIMED = {
               "with a refuted witness when a step writes a shared cell; the per-run obligation C20_frame_table states that the AST scan of skops/{io,card,cli,utils} finds no call-time write to module-level "
               "state (global statements, stores into / mutating calls on module objects, lru_cache/cache decorators, mutable defaults) -- re-checked against /repo on every run. Observed on the implementation: "
               "each generated API operation is computed first, after a random history, from 8 threads (switch interval 1e-6), and as the first call of a fresh process; module-level containers are hashed before/after; "
-              "separate Card instances are checked not to share sections/metrics."),
+              "separate Card instances are checked not to share sections/metrics. Forced schedules include 'enter A, enter B, exit A, B goes on' over nestings on both sides of the default recursion limit, and the process-wide interpreter state (recursion limit, cwd, sys.path, environ, warning filters, umask) must equal the fresh-process state after the history/thread phase and after every forced scenario."),
         note=("Partial by nature: real preemption inside C extensions / free-threaded builds, singledispatch's cache, zipfile internals cannot be exhibited. Trusted: AST scan (fail-closed on unknown patterns only as far as listed), "
               "thread harness."),
         ref="DESIGN.md section 4 C20"),
